@@ -167,10 +167,37 @@ func c04Keys(c *fw.Case, n int) {
 func c04Chain(c *fw.Case) {
 	r := c.Rng
 	code := uint64(18 + r.Intn(2))
-	keyType := gen.SigningKeyTypes[c.Idx%len(gen.SigningKeyTypes)]
-	st := sut.SharedStack(sut.Proto())
+	// all five key types: the configuration admits P-521 / ES512 next to the four shipped ones
+	keyType := gen.AllKeyTypes[c.Idx%len(gen.AllKeyTypes)]
+	proto := sut.Proto()
+	proto.KeyAlgorithms = append(proto.KeyAlgorithms, "P-521")
+	proto.SignatureAlgorithms = append(proto.SignatureAlgorithms, "ES512")
+	st := sut.SharedStack(proto)
+	nonceMode := c.Idx / len(gen.AllKeyTypes) % 4 // 0: bare keys, 1: every key carries a nonce, 2/3: successors reuse key material and differ in the nonce only
 	patches := []interface{}{gen.PAddKeys(gen.RandDocKey(r, "key1"))}
 	cs, ch := gen.NewChainCreate(r, code, keyType, patches)
+	if nonceMode != 0 {
+		ch.UpdateKey = ch.UpdateKey.WithNonce(r, int(proto.NonceSize))
+		ch.RecoverKey = ch.RecoverKey.WithNonce(r, int(proto.NonceSize))
+		cs.UpdateCommitment = ch.UpdateKey.Commitment(code)
+		cs.RecoveryCommitment = ch.RecoverKey.Commitment(code)
+	}
+	// successor derives the key that follows cur on its chain according to the nonce mode
+	successor := func(cur, fresh *gen.Key) *gen.Key {
+		switch nonceMode {
+		case 1:
+			return fresh.WithNonce(r, int(proto.NonceSize))
+		case 2, 3:
+			// same key material, the nonce alone differs: nonce A -> nonce B -> none -> nonce C ...
+			if cur.Nonce != "" && r.Chance(1, 3) {
+				k := *cur
+				k.Nonce = ""
+				return &k
+			}
+			return cur.WithNonce(r, int(proto.NonceSize))
+		}
+		return fresh
+	}
 	cb := cs.Build(r)
 	ch.Suffix = cb.Suffix
 	// ground truth commitments currently installed on each chain
@@ -199,8 +226,14 @@ func c04Chain(c *fw.Case) {
 		var nextU, nextR *gen.Key
 		if kind == "update" {
 			spec, nextU = ch.NextUpdate(r, []interface{}{gen.RandSimplePatch(r)})
+			nextU = successor(ch.UpdateKey, nextU)
+			spec.UpdateCommitment = nextU.Commitment(code)
 		} else if kind == "recover" {
 			spec, nextU, nextR = ch.NextRecover(r, []interface{}{gen.PAddKeys(gen.RandDocKey(r, "key2"))})
+			nextU = successor(ch.UpdateKey, nextU)
+			nextR = successor(ch.RecoverKey, nextR)
+			spec.UpdateCommitment = nextU.Commitment(code)
+			spec.RecoveryCommitment = nextR.Commitment(code)
 		}
 		if r.Chance(1, 4) && kind != "deactivate" {
 			spec.AnchorFrom = int64(r.Range(1, 1000))
@@ -210,7 +243,7 @@ func c04Chain(c *fw.Case) {
 		sample = append(sample, kind)
 		// the same request under a parser whose maximum operation size equals its length exactly
 		if i == 0 {
-			tight := sut.Proto()
+			tight := proto
 			tight.MaxOperationSize = uint(len(b.Request))
 			if rv2, err := sut.SharedStack(tight).Parser.GetRevealValue(b.Request); err != nil {
 				c.Failf("reveal-error-at-size-limit", map[string]interface{}{"request": string(b.Request), "MaxOperationSize": len(b.Request), "err": err.Error()}, "GetRevealValue fails when the operation is exactly MaxOperationSize bytes: %v", err)
@@ -265,6 +298,6 @@ func c04Chain(c *fw.Case) {
 			}
 		}
 	}
-	c.Sig("chain", seq, keyType, code)
-	c.Sample(map[string]interface{}{"sequence": seq, "key_type": keyType, "code": code, "create_request": fmt.Sprintf("%.300s", cb.Request)})
+	c.Sig("chain", seq, keyType, code, nonceMode)
+	c.Sample(map[string]interface{}{"sequence": seq, "key_type": keyType, "code": code, "nonce_mode": nonceMode, "create_request": fmt.Sprintf("%.300s", cb.Request)})
 }
